@@ -13,7 +13,7 @@ const USER: &str = "indexer";
 const PASS: &str = "s3cret-pass";
 
 /// well-formed parameters for every method, relative to a small prepared chain
-fn params_for(method: &str, height: u64, block_hash: &str, tx_hash: &str, n: u64) -> Value {
+fn params_for(method: &str, height: u64, block_hash: &str, tx_hash: &str, n: u64, network: &str) -> Value {
     let hx = format!("0x{:x}", height);
     let ts = 1_700_000_500u64 + n;
     let call = json!({"from": DEAD, "to": CONTROLLER, "data": "0x"});
@@ -21,7 +21,13 @@ fn params_for(method: &str, height: u64, block_hash: &str, tx_hash: &str, n: u64
         "brc20_mine" => json!([1, ts]),
         "brc20_deploy" => json!([pkscript(0), hex0x(&pg::store_initcode()), null, ts, ZERO_HASH, 0, format!("c12-deploy-{n}"), 2000, ZERO_HASH]),
         "brc20_call" => json!([pkscript(1), CONTROLLER, null, "0x01", null, ts, ZERO_HASH, 0, format!("c12-call-{n}"), 2000, ZERO_HASH]),
-        "brc20_transact" => json!(["0xc0", null, ts, ZERO_HASH, 0, format!("c12-tx-{n}"), 2000, ZERO_HASH]),
+        "brc20_transact" => {
+            // a properly signed transaction with the account's next nonce, so that an accepted call really executes
+            let cfg = crate::inst::SimConfig { network: network.to_string(), ..Default::default() };
+            let w = crate::world::World::new(crate::inst::Instance::closed(), cfg);
+            let raw = w.sign_tx(0, 0, Some(crate::world::parse_addr(DEAD)), vec![1, 2, 3], true);
+            json!([hex0x(&raw), null, ts, ZERO_HASH, 0, format!("c12-tx-{n}"), 2000, ZERO_HASH])
+        }
         "brc20_deposit" => json!([pkscript(0), "ordi", "0x10", ts, ZERO_HASH, 0, format!("c12-dep-{n}")]),
         "brc20_withdraw" => json!([pkscript(0), "ordi", "0x1", ts, ZERO_HASH, 0, format!("c12-wd-{n}")]),
         "brc20_balance" => json!([pkscript(0), "ordi"]),
@@ -116,6 +122,8 @@ fn run_matrix(seed: u64, auth_on: bool) -> Matrix {
         ("brc20_deposit", json!([pkscript(0), "ordi", "0x100", 1_700_000_001u64, ZERO_HASH, 0, "c12-prep"])),
         ("brc20_finaliseBlock", json!([1_700_000_001u64, ZERO_HASH, 1])),
         ("brc20_commitToDatabase", json!([])),
+        // one uncommitted block stays on top, so that an unauthorised clearCaches or commit is observable
+        ("brc20_mine", json!([1, 1_700_000_002u64])),
     ];
     for (m, p) in prep {
         match c.call(m, p, Some(&good)) {
@@ -150,8 +158,8 @@ fn run_matrix(seed: u64, auth_on: bool) -> Matrix {
             let authorised = !auth_on || *hname == "correct";
             for shape in ["call", "notification", "batch-first", "batch-middle", "batch-last"] {
                 n += 1;
-                let height = 1;
-                let p = params_for(m, height, &bh, &th, n);
+                let height = 2;
+                let p = params_for(m, height, &bh, &th, n, network);
                 let this = json!({"jsonrpc": "2.0", "id": 7, "method": m, "params": p});
                 let benign = |id: u64| json!({"jsonrpc": "2.0", "id": id, "method": "eth_blockNumber", "params": []});
                 let body = match shape {
@@ -202,6 +210,16 @@ fn run_matrix(seed: u64, auth_on: bool) -> Matrix {
                         );
                     }
                     stats.bump("unauthorised_requests_digested");
+                    if !is_protected && m.starts_with("brc20_") && shape == "call" {
+                        // a commit is invisible to queries: drop the caches and see whether the uncommitted block is gone
+                        let _ = c.call("brc20_clearCaches", json!([]), Some(&good));
+                        let hnow = c.call("eth_blockNumber", json!([]), None).unwrap_or(Value::Null);
+                        if hnow["result"].as_str() != Some("0x1") {
+                            bail!("mutating-method-not-on-protected-list", json!({"method": m, "header": hname, "why": "the uncommitted block survived clearCaches: the unauthorised call committed it", "height_after_clearCaches": hnow["result"]}));
+                        }
+                        let _ = c.call("brc20_mine", json!([1, 1_700_000_002u64]), Some(&good));
+                        stats.bump("commit_probes");
+                    }
                 } else {
                     if shape != "notification" && is_401(&mine) {
                         bail!("authorised-request-refused", json!({"method": m, "shape": shape, "header": hname, "auth_enabled": auth_on, "resp": mine}));
@@ -209,6 +227,18 @@ fn run_matrix(seed: u64, auth_on: bool) -> Matrix {
                     // keep the chain tidy for the following rows: drop whatever an authorised mutating call opened
                     if m.starts_with("brc20_") {
                         let _ = c.call("brc20_clearCaches", json!([]), Some(&good));
+                        // whatever the authorised call did (commit, reorg, mine ...), get back to: committed
+                        // height 1 + one uncommitted block
+                        let hnow = c.call("eth_blockNumber", json!([]), None).unwrap_or(Value::Null);
+                        let hn = u64::from_str_radix(hnow["result"].as_str().unwrap_or("0x0").trim_start_matches("0x"), 16).unwrap_or(0);
+                        if hn > 1 {
+                            let _ = c.call("brc20_reorg", json!([1]), Some(&good));
+                        } else if hn == 0 {
+                            let _ = c.call("brc20_deposit", json!([pkscript(0), "ordi", "0x100", 1_700_000_001u64, ZERO_HASH, 0, "c12-prep"]), Some(&good));
+                            let _ = c.call("brc20_finaliseBlock", json!([1_700_000_001u64, ZERO_HASH, 1]), Some(&good));
+                            let _ = c.call("brc20_commitToDatabase", json!([]), Some(&good));
+                        }
+                        let _ = c.call("brc20_mine", json!([1, 1_700_000_002u64]), Some(&good));
                     }
                 }
             }
